@@ -69,3 +69,95 @@ def feed(case, rng, obj, src, total, mbs, sched):
 
 def joined(results, idxs):
     return b"".join(rbytes(results[i]) for i in idxs)
+
+
+# ---- keystream family ------------------------------------------------------------------------------
+# (bs, w, dmode, kinds) compiled into harness/src/bin/hb_stream.rs
+CTR32 = ["ctr32be", "ctr32le"]
+CTR64 = ["ctr64be", "ctr64le"]
+CTR128 = ["ctr128be", "ctr128le"]
+STREAM_CFGS = [
+    (1, 2, "inv", ["ofb"]), (5, 3, "unrel", ["ofb"]),
+    (4, 3, "inv", ["ofb"] + CTR32), (12, 2, "unrel", ["ofb"] + CTR32),
+    (8, 1, "inv", ["ofb"] + CTR32 + CTR64), (8, 4, "unrel", ["ofb"] + CTR32 + CTR64), (24, 3, "inv", ["ofb"] + CTR32 + CTR64),
+    (16, 1, "inv", ["ofb", "belt"] + CTR32 + CTR64 + CTR128), (16, 2, "unrel", ["ofb", "belt"] + CTR32 + CTR64 + CTR128),
+    (16, 3, "inv", ["ofb", "belt"] + CTR32 + CTR64 + CTR128), (16, 5, "inv", ["ofb", "belt"] + CTR32 + CTR64 + CTR128),
+    (16, 8, "inv", ["ofb", "belt"] + CTR32 + CTR64 + CTR128),
+    (32, 4, "inv", ["ofb"] + CTR32 + CTR64 + CTR128), (48, 2, "unrel", ["ofb"] + CTR32 + CTR64 + CTR128),
+]
+CTS_CFGS = BLOCK_CFGS
+CTS_KINDS = ["cbc_cs1", "cbc_cs2", "cbc_cs3", "ecb_cs1", "ecb_cs2", "ecb_cs3"]
+
+
+def ctr_params(kind):
+    """(counter bits, endianness) of a ctr kind name"""
+    bits = int("".join(ch for ch in kind if ch.isdigit()))
+    return bits, ("be" if kind.endswith("be") else "le")
+
+
+def stream_cfgs_for(pred):
+    """[(bs, w, dm, kind)] for every compiled configuration and kind satisfying pred(kind)"""
+    return [(bs, w, dm, k) for bs, w, dm, ks in STREAM_CFGS for k in ks if pred(k)]
+
+
+def boundary_iv(rng, bs, kind):
+    """IV whose counter field sits at an interesting value (0, 1, 2^k-1, 2^w-2, 2^w-1, random)"""
+    iv = bytearray(rbytes_n(rng, bs))
+    if kind.startswith("ctr"):
+        bits, end = ctr_params(kind)
+        k = bits // 8
+        choice = rng.choice(["rand", "zero", "one", "max", "max-1", "pow", "pow"])
+        if choice == "rand":
+            v = rng.getrandbits(bits)
+        elif choice == "zero":
+            v = 0
+        elif choice == "one":
+            v = 1
+        elif choice == "max":
+            v = (1 << bits) - 1
+        elif choice == "max-1":
+            v = (1 << bits) - 2
+        else:
+            v = (1 << rng.randint(1, bits)) - 1 - rng.choice([0, 0, 1, 2])
+            v %= (1 << bits)
+        if end == "be":
+            iv[-k:] = v.to_bytes(k, "big")
+        else:
+            iv[:k] = v.to_bytes(k, "little")
+    return bytes(iv)
+
+
+def byte_pieces(rng, n, bs):
+    """composition of n bytes into piece lengths: zeros allowed, pieces ending on block boundaries,
+    pieces straddling boundaries"""
+    pieces, left = [], n
+    while left > 0:
+        cands = [0, 1, bs - 1, bs, bs + 1, 2 * bs, 2 * bs + 3, rng.randint(0, left), rng.randint(0, min(left, 3 * bs + 2))]
+        k = rng.choice([c for c in cands if 0 <= c <= left])
+        pieces.append(k)
+        left -= k
+    if rng.random() < 0.3:
+        pieces.append(0)
+    return pieces
+
+
+def stream_feed(case, rng, op, obj, src, pieces, places=("ip", "b2b")):
+    """emit `op obj ip|b2b piece` for every piece; src is bytes or ('ref', k)"""
+    outs, off = [], 0
+    for ln in pieces:
+        if isinstance(src, (bytes, bytearray)):
+            d = hx(src[off:off + ln])
+        else:
+            s = case.op("sub @%d %d %d" % (src[1], off, ln))
+            d = "@%d" % s
+        off += ln
+        place = rng.choice(places)
+        if place == "ip":
+            outs.append(case.op("%s %s ip %s" % (op, obj, d)))
+        else:
+            outs.append(case.op("%s %s b2b %s %s" % (op, obj, d, hx(rbytes_n(rng, ln)))))
+    return outs
+
+
+def no_panic(results):
+    return all(r[0] != "panic" and not (r[0] == "text" and r[1] == "6572722d6275742d6275666665722d6d6f646966696564") for r in results)
